@@ -19,3 +19,39 @@ Proof.
   cbn [root_wf] in H. apply andb_prop in H as (H & _).
   apply unmarshal_total; [exact H|unfold dec_fuel; lia|exact Hb|exact Hl].
 Qed.
+
+(* ---- allocation: the schema-side constants of Proofs/AperTotalAlloc.v, evaluated *)
+Require Import AperTotalAlloc.
+
+Lemma ngap_roots_cons : forallb (fun r : string * ty * params * params => let '(_, t, _, pd) := r in cons_ok t pd) ngap_roots_full = true.
+Proof. vm_compute. reflexivity. Qed.
+
+(* worst chain of over-claimed lists over all roots (octets), and octets reserved per input bit by completed lists *)
+Definition ngap_chain_max : N :=
+  Eval vm_compute in fold_right (fun (r : string * ty * params * params) m => let '(_, t, _, pd) := r in N.max (chain t (count_ub pd)) m) 0 ngap_roots_full.
+Definition ngap_lcoef_max : N :=
+  Eval vm_compute in fold_right (fun (r : string * ty * params * params) m => let '(_, t, _, _) := r in N.max (lcoef t) m) 0 ngap_roots_full.
+
+Lemma ngap_alloc_consts :
+  forallb (fun r : string * ty * params * params =>
+             let '(_, t, _, pd) := r in (chain t (count_ub pd) <=? ngap_chain_max) && (lcoef t <=? ngap_lcoef_max)) ngap_roots_full = true.
+Proof. vm_compute. reflexivity. Qed.
+
+Lemma ngap_consts_values : ngap_chain_max = 16252872 /\ ngap_lcoef_max = 304.
+Proof. split; reflexivity. Qed.
+
+Theorem ngap_decode_alloc_bounded root t pe pd bs fuel :
+  In (root, t, pe, pd) ngap_roots_full -> bytes_ok bs -> len bs < MAXLEN ->
+  unmarshal_alloc fuel t pd bs <= 16252872 + 2432 * len bs.
+Proof.
+  intros Hin Hb Hl.
+  pose proof ngap_roots_wf as Hw. rewrite forallb_forall in Hw. specialize (Hw _ Hin). cbn [root_wf] in Hw. apply andb_prop in Hw as (Hw & _).
+  pose proof ngap_roots_cons as Hc. rewrite forallb_forall in Hc. specialize (Hc _ Hin). cbv beta iota in Hc.
+  pose proof ngap_alloc_consts as Hk. rewrite forallb_forall in Hk. specialize (Hk _ Hin). cbv beta iota in Hk.
+  apply andb_prop in Hk as (Hk1 & Hk2). apply N.leb_le in Hk1, Hk2.
+  pose proof (unmarshal_alloc_bound fuel t pd bs Hw Hc Hb Hl) as H.
+  change ngap_chain_max with 16252872 in Hk1. change ngap_lcoef_max with 304 in Hk2.
+  pose proof (N.mul_le_mono_r (lcoef t) 304 (8 * len bs) Hk2).
+  replace (2432 * len bs) with (304 * (8 * len bs)) by (rewrite N.mul_assoc; reflexivity).
+  lia.
+Qed.
